@@ -976,6 +976,14 @@ func registerRT() {
 		in.call(c, token.NoPos, a[0], nil)
 		return nil
 	}
+	rtIntrinsics["vTrace"] = func(in *Interp, c *frame, fn *ssa.Function, a []Value) Value {
+		t := a[1].(*Term)
+		if !t.IsConst() {
+			in.unsupported("vTrace of a symbolic value (%s)", a[0].(string))
+		}
+		in.run.trace = append(in.run.trace, fmt.Sprintf("%s=%d", a[0].(string), t.c))
+		return nil
+	}
 	rtIntrinsics["vYield"] = func(in *Interp, c *frame, fn *ssa.Function, a []Value) Value {
 		in.visible("vYield")
 		return nil
